@@ -11,6 +11,7 @@ mod c11;
 mod c12;
 mod c13;
 mod c14;
+mod c16;
 mod refcodec;
 mod refvmess;
 mod ssudp;
@@ -41,6 +42,7 @@ fn main() {
         "c03-replay" => c12::c03_replay(rest),
         "c13-grammar" => c13::grammar(rest),
         "c13-local" => c13::local(rest),
+        "c16-probe" => c16::run(rest),
         "c11-replay" => c11::replay(rest),
         "c11-record" => c11::record(rest),
         other => Err(anyhow::anyhow!("unknown subcommand {other}")),
